@@ -1,2 +1,5 @@
 def run(ctx):
-    return ""
+    """C09.choose: 'blockwise' is chosen only when the planner said so or the user asked; arg-reductions never get blockwise."""
+    from . import plan_proofs
+
+    return plan_proofs.run(ctx, which=("choose_method",), pid="C09")
